@@ -82,6 +82,7 @@ type Observers struct {
 }
 
 type World struct {
+	kbuf []byte // see rk
 	LastVRead int64 // version of the last vread step
 	Quiet         bool // see History.Quiet
 	LiveInitAbove bool // SetInitialVersion(v > first stored version) was called on the live handle
@@ -298,6 +299,13 @@ func (w *World) setWorkingFrom(v int64) {
 }
 
 func (w *World) rawDump() map[string][]byte { return DumpDB(w.DB) }
+
+// rk hands the key to a read call through ONE buffer that is overwritten for every call (a caller is free to reuse its
+// key buffer between reads): nothing the library keeps from a read may alias the caller's memory.
+func (w *World) rk(k []byte) []byte {
+	w.kbuf = append(w.kbuf[:0], k...)
+	return w.kbuf
+}
 
 // Apply executes op on the real tree and the model and compares the immediate results.
 func (w *World) Apply(op Op) (v *Violation) {
@@ -1313,14 +1321,14 @@ func (w *World) checkWorking() *Violation {
 		return nil
 	}
 	for i, kv := range kvs {
-		g, err := tr.Get(kv.K)
+		g, err := tr.Get(w.rk(kv.K))
 		if err != nil || !bytes.Equal(g, kv.V) || g == nil {
 			return w.viol("working.get", "working Get(%q)=%q,nil=%v,%v want %q", kv.K, g, g == nil, err, kv.V)
 		}
-		if has, err := tr.Has(kv.K); err != nil || !has {
+		if has, err := tr.Has(w.rk(kv.K)); err != nil || !has {
 			return w.viol("working.has", "working Has(%q)=%v,%v want true", kv.K, has, err)
 		}
-		idx, v, err := tr.GetWithIndex(kv.K)
+		idx, v, err := tr.GetWithIndex(w.rk(kv.K))
 		if err != nil || idx != int64(i) || !bytes.Equal(v, kv.V) || v == nil {
 			return w.viol("working.getwithindex", "working GetWithIndex(%q)=%d,%q,%v want %d,%q", kv.K, idx, v, err, i, kv.V)
 		}
@@ -1332,14 +1340,14 @@ func (w *World) checkWorking() *Violation {
 	_, absent := probeKeys(w.WKV)
 	sortedW := sortedKeys(w.WKV)
 	for _, k := range absent {
-		g, err := tr.Get([]byte(k))
+		g, err := tr.Get(w.rk([]byte(k)))
 		if err != nil || g != nil {
 			return w.viol("working.get_absent", "working Get(absent %q)=%q,%v", k, g, err)
 		}
-		if has, err := tr.Has([]byte(k)); err != nil || has {
+		if has, err := tr.Has(w.rk([]byte(k))); err != nil || has {
 			return w.viol("working.has_absent", "working Has(absent %q)=%v,%v", k, has, err)
 		}
-		idx, v, err := tr.GetWithIndex([]byte(k))
+		idx, v, err := tr.GetWithIndex(w.rk([]byte(k)))
 		wantIdx := int64(sort.SearchStrings(sortedW, k))
 		if err != nil || v != nil || idx != wantIdx {
 			return w.viol("working.getwithindex_absent", "working GetWithIndex(absent %q)=%d,%q,%v want %d,nil", k, idx, v, err, wantIdx)
@@ -1542,15 +1550,15 @@ func (w *World) checkVersionReads(tr *iavl.MutableTree, it *iavl.ImmutableTree, 
 		}
 	}
 	for i, kv := range kvs {
-		g, err := it.Get(kv.K)
+		g, err := it.Get(w.rk(kv.K))
 		if err != nil || !bytes.Equal(g, kv.V) || g == nil {
 			return w.viol(obs("version.get"), "version %d Get(%q)=%q,%v want %q", v, kv.K, g, err, kv.V)
 		}
-		g, err = tr.GetVersioned(kv.K, v)
+		g, err = tr.GetVersioned(w.rk(kv.K), v)
 		if err != nil || !bytes.Equal(g, kv.V) || g == nil {
 			return w.viol(obs("version.getversioned"), "GetVersioned(%q,%d)=%q,%v want %q", kv.K, v, g, err, kv.V)
 		}
-		idx, val, err := it.GetWithIndex(kv.K)
+		idx, val, err := it.GetWithIndex(w.rk(kv.K))
 		if err != nil || idx != int64(i) || !bytes.Equal(val, kv.V) {
 			return w.viol(obs("version.getwithindex"), "version %d GetWithIndex(%q)=%d,%q,%v want %d,%q", v, kv.K, idx, val, err, i, kv.V)
 		}
@@ -1558,25 +1566,25 @@ func (w *World) checkVersionReads(tr *iavl.MutableTree, it *iavl.ImmutableTree, 
 		if err != nil || !bytes.Equal(k2, kv.K) || !bytes.Equal(v2, kv.V) {
 			return w.viol(obs("version.getbyindex"), "version %d GetByIndex(%d)=%q,%q,%v want %q,%q", v, i, k2, v2, err, kv.K, kv.V)
 		}
-		if has, err := it.Has(kv.K); err != nil || !has {
+		if has, err := it.Has(w.rk(kv.K)); err != nil || !has {
 			return w.viol(obs("version.has"), "version %d Has(%q)=%v,%v", v, kv.K, has, err)
 		}
 	}
 	_, absent := probeKeys(vs.KV)
 	sortedV := sortedKeys(vs.KV)
 	for _, k := range absent {
-		g, err := it.Get([]byte(k))
+		g, err := it.Get(w.rk([]byte(k)))
 		if err != nil || g != nil {
 			return w.viol(obs("version.get_absent"), "version %d Get(absent %q)=%q,%v", v, k, g, err)
 		}
-		g, err = tr.GetVersioned([]byte(k), v)
+		g, err = tr.GetVersioned(w.rk([]byte(k)), v)
 		if err != nil || g != nil {
 			return w.viol(obs("version.getversioned_absent"), "GetVersioned(absent %q,%d)=%q,%v", k, v, g, err)
 		}
-		if has, err := it.Has([]byte(k)); err != nil || has {
+		if has, err := it.Has(w.rk([]byte(k))); err != nil || has {
 			return w.viol(obs("version.has_absent"), "version %d Has(absent %q)=%v,%v", v, k, has, err)
 		}
-		idx, val, err := it.GetWithIndex([]byte(k))
+		idx, val, err := it.GetWithIndex(w.rk([]byte(k)))
 		wantIdx := int64(sort.SearchStrings(sortedV, k))
 		if err != nil || val != nil || idx != wantIdx {
 			return w.viol(obs("version.getwithindex_absent"), "version %d GetWithIndex(absent %q)=%d,%q,%v want %d", v, k, idx, val, err, wantIdx)
